@@ -214,6 +214,10 @@ def worker(task, col):
         v = task['replay']['violation']
         common.guard(col, check_case, v['source_spec'], col, v['seed_parts'], 'replay')
         return
+    if task.get('shard') == 0:
+        for c in common.corpus('C20'):
+            for rep in range(12):
+                common.guard(col, check_case, c['spec'], col, ('corpus', c['file'], rep))
     for i in range(task['lo'], task['hi']):
         rnd = gen.rng_for('C20', task['seed'], i)
         r = rnd.random()
